@@ -9,7 +9,8 @@ Line protocol of the C03 model.
   C03 answer <corpus> <query>…            spec: ids of live docs with `sem` (`;` between queries)
   C03 search <0|1> <top 0|1> <corpus> <query>…  implementation model: `searchIds`/`searchIdsTop leafTree scoring`
   C03 count <corpus> <query>…             implementation model: Σ `weightCount`
-  C03 ok <query>…                         side conditions `okQ` of C03_compile_sound_partial (F4, S6)
+  C03 ok <query>…                         side conditions `okQ singleClauseGuard` of C03_compile_sound_partial
+  C03 guard                               does BooleanWeight::scorer's single-clause branch honour msm (extracted)
   C03 slop <on|off> <slop> <l1/l2/…>      the two phrase-slop algorithms on adjusted position lists
   C03 i64 <u64 bits> / C03 f64 <u64 bits> order-preserving encodings (on bit patterns)
   C03 lev <transp> <pre> <hex cand> <hex query>   edit distance
@@ -183,12 +184,13 @@ def handle : List String → String
   | "search" :: sc :: top :: c :: qs =>
     match parseB sc, parseB top, parseCorpus c with
     | some sc, some top, some c =>
-      perQuery qs (fun q => showNatList (if top then searchIdsTop leafTree sc c q else searchIds leafTree sc c q))
+      perQuery qs (fun q => showNatList (if top then searchIdsTop leafTree singleClauseGuard sc c q else searchIds leafTree singleClauseGuard sc c q))
     | _, _, _ => "bad-op"
-  | "ok" :: qs => perQuery qs (fun q => showBool (okQ q))
+  | "ok" :: qs => perQuery qs (fun q => showBool (okQ singleClauseGuard q))
+  | ["guard"] => showBool singleClauseGuard
   | "count" :: c :: qs =>
     match parseCorpus c with
-    | some c => perQuery qs (fun q => toString ((c.map (fun s => weightCount leafTree s q)).sum))
+    | some c => perQuery qs (fun q => toString ((c.map (fun s => weightCount leafTree singleClauseGuard s q)).sum))
     | none => "bad-op"
   | ["slop", mode, slop, ls] =>
     match slop.toNat?, slashLists ls with
